@@ -22,30 +22,31 @@ static_assert(TaskStatus::SUCCESS < TaskStatus::FAILURE, "VERIF C08.d SUCCESS < 
 ''', 2, ['-DFFSM2_ENABLE_PLANS=']),
 }
 
-def config_unit(rule):
+def config_unit(rule, plans=True):
     """type-level unit: the configuration builder's setters commute -- applied in any of the 120 orders, context, activation, substitution
     limit, task capacity and payload type all arrive in the resulting configuration (a setter that forgets to forward one of the others
     silently resets it to the default)"""
     import itertools
-    name = 'config-' + rule
+    name = 'config-' + rule + ('' if plans else '-noplans')
     if name not in UNITS:
         setters = {'C': 'ContextT<VCtx>', 'M': 'ManualActivation', 'S': 'SubstitutionLimitN<7>', 'T': 'TaskCapacityN<3>', 'P': 'PayloadT<VPay>'}
+        keys = 'CMSTP' if plans else 'CMSP'        # the task-capacity setter exists only with plans; the others must mean the same without
         lines = ['#include "w_common.hpp"', '#include <type_traits>', 'struct VCtx { int x; }; struct VPay { double d; };',
                  'template <typename G> struct Chk {',
                  '\tstatic_assert(std::is_same<typename G::Context, VCtx>::value, "VERIF %s the context survives every order of the configuration setters");' % rule,
                  '\tstatic_assert(std::is_same<typename G::Activation, ffsm2::Manual>::value, "VERIF %s manual activation survives every order of the configuration setters");' % rule,
                  '\tstatic_assert(G::SUBSTITUTION_LIMIT == 7, "VERIF %s the substitution limit survives every order of the configuration setters");' % rule,
-                 '\tstatic_assert(G::TASK_CAPACITY == 3, "VERIF %s the task capacity survives every order of the configuration setters");' % rule,
+                 ('\tstatic_assert(G::TASK_CAPACITY == 3, "VERIF %s the task capacity survives every order of the configuration setters");' % rule) if plans else '',
                  '\tstatic_assert(std::is_same<typename G::Payload, VPay>::value, "VERIF %s the payload type survives every order of the configuration setters");' % rule,
                  '\tstatic constexpr bool OK = true; };']
         n = 0
-        for perm in itertools.permutations('CMSTP'):
+        for perm in itertools.permutations(keys):
             chain = 'ffsm2::Config'
             for i, k in enumerate(perm):
                 chain += '::' + ('template ' if False else '') + setters[k]
             lines.append('static_assert(Chk<%s>::OK, "");' % chain)
             n += 1
-        UNITS[name] = ('\n'.join(lines) + '\n', n * 5, ['-DFFSM2_ENABLE_PLANS='])
+        UNITS[name] = ('\n'.join(lines) + '\n', n * (5 if plans else 4), ['-DFFSM2_ENABLE_PLANS='] if plans else [])
     return name
 
 
